@@ -13,6 +13,7 @@ import (
 	"sync/atomic"
 
 	"verif/chk"
+	"verif/e2"
 	"verif/e3/util"
 	"verif/ref"
 )
@@ -36,6 +37,9 @@ func report(r *chk.Run, class string, in util.CellInput, why string) {
 }
 
 func replay(kind string, input json.RawMessage) (bool, string) {
+	if kind == "history" {
+		return e2.ReplayHistory(kind, input)
+	}
 	var in util.CellInput
 	if err := json.Unmarshal(input, &in); err != nil {
 		return false, err.Error()
@@ -315,5 +319,7 @@ func run(r *chk.Run) {
 	r.Set("int64", "boundary lattice 2^k, 2^k+-1, complements (about 400 values) x {signed, unsigned}")
 	r.Rule("odometer enumeration of the value domain of each numeric cell type; every input is a distinct (type, metadata, signedness, bit pattern); each is decoded by replication.CellBytes at two offsets between sentinels and compared with reference arithmetic (floats: exponent-free text that parses back to the identical bits)")
 	r.Assume("signedness of an integer cell is whatever the caller passes (end-to-end use of the mapper's flag is C01/C15)")
+	// end-to-end half (engine E2): signedness comes from the table mapper by ordinal
+	e2.RunSignedness(r)
 	r.SetExhaustive(true)
 }
